@@ -50,6 +50,10 @@ def units(tier, seed):
     for fr, ego in frames[:2]:
         for pol in S.POLICIES[:2]:
             u.append(dict(seam="frame", family="reversed", frame=fr, ego=list(ego), policy=pol, kmax=2, chunk=[0, 1], tier=tier))
+    # the pass/fail configuration lists the labels in another order than the critical filter (same value per label)
+    for fr, ego in frames[:2]:
+        for pol in S.POLICIES[:2]:
+            u.append(dict(seam="frame", family="pf_reversed", frame=fr, ego=list(ego), policy=pol, kmax=2, chunk=[0, 1], tier=tier))
     # manager seam: both manager-level filters, both frames
     for fr, ego in frames[:2]:
         for pol in S.POLICIES:
@@ -79,7 +83,7 @@ def run_unit(unit, acc):
                                 ests=[est[i] for i in es], gts=[gt[j] for j in gs], crits=["box3"], thrs=["per_label3"]), acc)
         return
     est, gt = S.pools(_SEED[0])
-    if unit.get("family") == "reversed":
+    if unit.get("family") in ("reversed", "pf_reversed"):
         est, gt = [est[i] for i in (0, 1, 2, 3, 4, 5, 7)], [gt[j] for j in (0, 1, 2, 3, 4, 7)]
     if unit["seam"] == "manager" and unit["tier"] == "quick":
         est, gt = [est[i] for i in (0, 1, 3, 4, 5, 7)], [gt[j] for j in (0, 1, 3, 4, 7)]
@@ -95,8 +99,8 @@ def run_unit(unit, acc):
             case = dict(seam=unit["seam"], frame=unit["frame"], ego=unit["ego"], policy=unit["policy"],
                         ests=[est[i] for i in es], gts=[gt[j] for j in gs], crits=list(S.CRIT)[:3],
                         thrs=list(S.THR) if unit["tier"] == "thorough" else ["tight", "per_label", "zero"])
-            if unit.get("family") == "reversed":
-                case["family"] = "reversed"
+            if unit.get("family") in ("reversed", "pf_reversed"):
+                case["family"] = unit["family"]
                 case["crits"], case["thrs"] = ["box_per_label", "ring"], ["per_label"]
             if unit["seam"] == "manager":
                 case["mgr_filter"] = unit["mgr_filter"]
@@ -301,8 +305,10 @@ def check_case(case, acc):
         for crit in case["crits"]:
             for thr in case["thrs"]:
                 acc.exec()
+                pfr = case.get("family") == "pf_reversed"
                 fr = F.evaluate_frame(ec, res, gts, ego, CRIT3[crit] if u3 else (_rev(S.CRIT[crit]) if rv else S.CRIT[crit]),
-                                      THR3[thr] if u3 else (list(reversed(S.THR[thr])) if rv else S.THR[thr]), labels=names, previous=prev)
+                                      THR3[thr] if u3 else (list(reversed(S.THR[thr])) if rv else S.THR[thr]), labels=names, previous=prev,
+                                      pf_labels=("pedestrian", "car") if pfr else None, pf_thr=list(reversed(S.THR[thr])) if pfr else None)
                 pre_results = {G.index_of(r.estimated_object, ests): (None if r.ground_truth_object is None else G.index_of(r.ground_truth_object, gts)) for r in res}
                 _check_frame(case, crit, thr, fr, ests, gts, pre_e, pre_g, acc, pre_results=pre_results)
     else:
